@@ -119,7 +119,8 @@ pub fn gen_ustr(t: &mut Tape, ucs2: bool, units: Option<usize>, max: usize) -> U
     }
     // an empty UCS-2 string is always sent with its NUL unit (0x81 00 00): a bare 0x80 followed by a
     // byte 0x01 of the next field would be indistinguishable from the stray-0x01 quirk
-    let trailing_nul = n > 0 || ucs2 || t.draw(DATA, 2) == 0;
+    // (a Latin-1 string is now and then sent without its terminator, the length byte counting the text only)
+    let trailing_nul = if ucs2 { true } else if n > 0 { t.draw(DATA, 8) != 0 } else { t.draw(DATA, 2) == 0 };
     UStr { units: v, ucs2, stray_one, trailing_nul }
 }
 
